@@ -8,6 +8,7 @@ from simkit.core import World, Violation, Refused, HarnessError
 
 NAME_PARTS = ["a", "b", "0", 0, 1]
 LONG_PARTS = ["ab", "reg", "a0", 300, 1000]      # equal values arrive as distinct objects
+ODD_PARTS = ["a/b", "a", "b/", "[0]", 0, "0", "a.b", "a__b", "__"]   # any non-empty string is legal
 
 
 def fresh(part):
@@ -111,12 +112,30 @@ class MemMapWorld(World):
 
     def _name(self, rng):
         pool = NAME_PARTS if not rng.chance(0.2) else LONG_PARTS
+        if rng.chance(0.06):
+            pool = ODD_PARTS
+        if rng.chance(0.001):
+            # a very deep hierarchy (see gen_ops for the deliberate pairs)
+            return ["lvl"] * rng.choice([990, 1000, 1010]) + [rng.choice(["a", "b", 0])]
         n = [rng.choice(pool) for _ in range(rng.range(1, 3))]
         if rng.chance(0.35) and pool is NAME_PARTS:
             n[0] = rng.choice([0, "0"])       # roots that tie under str()
         return n
 
     def gen_ops(self, rng, config, prop):
+        ops = self._gen_ops(rng, config, prop)
+        if rng.chance(0.004):
+            # two names that share a thousand leading parts and differ only at the very end (a
+            # deep, regular hierarchy), in the same map
+            m = rng.below(len(config["maps"]))
+            at = rng.below(len(ops) + 1)
+            depth = rng.choice([1000, 1990, 2005])     # (the check runs with a recursion limit of 2000)
+            for tail in (["a"], ["b", 0]):
+                ops.insert(at, {"k": "res", "m": m, "size": 1, "addr": None, "align": None,
+                                "name": ["lvl"] * depth + tail, "obj": -1})
+        return ops
+
+    def _gen_ops(self, rng, config, prop):
         ops = []
         nm = len(config["maps"])
         for step in range(rng.range(20, 45)):
